@@ -263,6 +263,13 @@ impl<T: RefCnt, Cfg: Config> CaS<T> for HybridStrategy<Cfg> {
             verif_rt::probe(verif_rt::probes::CAS_RETRY, false);
             // Observation of their inequality is enough to make a verdict
             if old.as_ptr() != current.as_raw() {
+                // Release what we were given *before* handing out the result. Dropping `new` (and
+                // `current`, if it is a guard) may run the destructor of the pointee; should that
+                // panic, `old` is still an ordinary local here and the unwinding releases it. A
+                // value that has already been moved into the return place would be leaked
+                // together with its debt slot (rust-lang/rust#47949).
+                drop(new);
+                drop(current);
                 return old;
             }
             // If they are still equal, put the new one in.
@@ -277,6 +284,8 @@ impl<T: RefCnt, Cfg: Config> CaS<T> for HybridStrategy<Cfg> {
                 // We just got one ref count out of the storage and we have one in old. We don't
                 // need two.
                 T::dec(old.as_ptr());
+                // Same as above: `current` may be a guard whose release panics.
+                drop(current);
                 return old;
             }
         }
